@@ -346,6 +346,11 @@ def treeLine (st : TState) (e : SExp) : TState × String :=
     else if phase == "after" && err == "nil" && name != "Close" then
       ({ st with dead := true }, s!"reject C12 {name}() on node {id} succeeded after the root was done")
     else (st, "ok")
+  | .list [.atom "fsubprobe", ready, .atom events, .atom cached, done] =>
+    if decBool ready != some false || events != "0" || cached != "0" then
+      ({ st with dead := true }, s!"reject C08 a filtered subscription whose parent never became ready: Ready() closed = {repr ready}, {events} events published, {cached} objects cached — nothing may be observable before Ready()")
+    else if decBool done != some true then ({ st with dead := true }, "reject C11/C12 a filtered subscription whose parent went away is not done")
+    else (st, "ok")
   | .list [.atom "monprobe", .atom calls, done] =>
     if calls != "0" then ({ st with dead := true }, s!"reject C16 a monitor on a publisher that shut down before it became ready ran {calls} callbacks (events were waiting in its subscription)")
     else if decBool done != some true then ({ st with dead := true }, "reject C16/C11 a monitor whose publisher shut down before it became ready is not done")
